@@ -169,7 +169,8 @@ CHECKS: dict[str, tuple[str, str, str, str]] = {
     "C15": (
         "history monitor against a fresh-process oracle + thread stress with sys.monitoring yield injection against a sequential baseline",
         "Long seeded histories of parser creation (all optimizer settings), code generation and succeeding/failing parses with an "
-        "observed call every third operation, compared with the same call in a fresh interpreter process; and short multi-threaded "
+        "observed call every third operation, compared with the same call in a fresh interpreter process; the same over seeded random "
+        "grammars of all profiles (oracle: one fresh process per grammar, every call on a freshly built object); and short multi-threaded "
         "runs (8-16 threads on shared objects, 1 us switch interval, seeded sleep(0) on LINE events inside pest and generated frames, "
         "concurrent builders) compared with the single-threaded baseline. Every parse runs under a logical step budget (20 000 checkpoints + rule "
         "entries; the pool needs < 400), so a history that makes a later call diverge ends as a result that differs from the pristine one. "
